@@ -400,18 +400,43 @@ func runTriple(t *rapid.T, e serverEntry, tr triple) string {
 				um, _, _ = lib.DrawCorruptMask(t, "badUpdateMask", tr.res, val)
 			}
 			setMask(req, "update_mask", um)
+			// what else the request offers (a "relative"/"delta" flag, a relative adjustment message, ...): part of the API
+			extras := ""
+			rfs := req.ProtoReflect().Descriptor().Fields()
+			for fi := 0; fi < rfs.Len(); fi++ {
+				fd := rfs.Get(fi)
+				if fd == tr.updField || fd.Name() == "name" || fd.Name() == "update_mask" || string(fd.Name()) == keyReq || fd.IsList() || fd.IsMap() {
+					continue
+				}
+				switch {
+				case fd.Kind() == protoreflect.BoolKind:
+					if rapid.IntRange(0, 2).Draw(t, "extraBool."+string(fd.Name())) == 1 {
+						req.ProtoReflect().Set(fd, protoreflect.ValueOfBool(true))
+						extras += " " + string(fd.Name()) + "=true"
+					}
+				case fd.Message() != nil && fd.Message().FullName() != "google.protobuf.FieldMask":
+					if rapid.IntRange(0, 3).Draw(t, "extraMsg."+string(fd.Name())) == 1 {
+						em := lib.GenMessage(t, "extra."+string(fd.Name()), newOf(fd.Message()), mgen)
+						req.ProtoReflect().Set(fd, protoreflect.ValueOfMessage(em.ProtoReflect()))
+						extras += " " + string(fd.Name()) + "=" + txt(em)
+					}
+				}
+			}
+			if extras != "" {
+				lib.Ev.Class("update request with further fields set (relative / delta / ...)")
+			}
 			resp := newOf(tr.update.Output())
 			err := conn.Invoke(ctx, method(tr.update), req, resp)
 			after := get(nil)
 			if err != nil {
-				hist = append(hist, fmt.Sprintf("update %s mask=%s => %v", txt(val), lib.MaskString(um), err))
+				hist = append(hist, fmt.Sprintf("update %s mask=%s%s => %v", txt(val), lib.MaskString(um), extras, err))
 				if !proto.Equal(before, after) {
 					fail("an %s rejected with %v changed what %s returns: %s -> %s", tr.update.Name(), err, tr.get.Name(), txt(before), txt(after))
 				}
 				continue
 			}
 			updates++
-			hist = append(hist, fmt.Sprintf("update %s mask=%s => ok %s", txt(val), lib.MaskString(um), txt(resp)))
+			hist = append(hist, fmt.Sprintf("update %s mask=%s%s => ok %s", txt(val), lib.MaskString(um), extras, txt(resp)))
 			if !proto.Equal(resp, after) {
 				fail("%s returned %s but the next %s returns %s", tr.update.Name(), txt(resp), tr.get.Name(), txt(after))
 			}
